@@ -14,7 +14,7 @@ ToSet(q) == {q[i] : i \in DOMAIN q}
 MF(m) == [k |-> m.k, w |-> m.w, d |-> m.d, pad |-> m.pad]
 Key(x) == [p |-> x.p, b |-> x.b, e |-> x.e]
 FilesOf(q) == LET xs == ToSet(q) IN [f \in {Key(x) : x \in xs} |-> (CHOOSE x \in xs : Key(x) = f).n]
-StateOf(o) == St(MF(o.modeFile), o.day, o.tod, FilesOf(o.files), ToSet(o.local), ToSet(o.ready),
+StateOf(o) == St(MF(o.modeFile), MF(o.intent), o.day, o.tod, FilesOf(o.files), ToSet(o.local), ToSet(o.ready),
                  ToSet(o.uploaded), {[wk |-> x.wk, run |-> x.run] : x \in ToSet(o.requests)})
 
 If(c, name) == IF c THEN {} ELSE {name}
@@ -23,14 +23,18 @@ Violated(r) ==
        If(C_RequestOnlyWhenOn(a, s, t), "RequestOnlyWhenOn")
   \cup UNION {If(C_UploadableOnlyIfW(c, a, s, t), "UploadableOnlyIf." \o c) : c \in {"data", "age", "rate", "optin"}}
   \cup UNION {If(C_SentOnlyIfW(c, a, s, t), "SentOnlyIf." \o c) : c \in {"future", "optin"}}
-  \cup If(C_OffChangesNothing(a, s, t) /\ ((ExactlyOff(s.modeFile) /\ a.op \in {"run", "collect"}) => r.same.data), "OffChangesNothing")
+  \cup If(C_OffChangesNothing(a, s, t) /\ ((ExactlyOff(Gov(s)) /\ a.op \in {"run", "collect"}) => r.same.data), "OffChangesNothing")
   \cup If(C_OtherBehavesLocal(a, s, t), "OtherBehavesLocal")
-  \cup If(a.op = "set" => IF a.a \in ValidModes THEN a.ok /\ <<r.read.w, r.read.d>> = <<a.a, a.n1>>
-                          ELSE ~a.ok /\ r.same.mode, "SetGet")
+  \cup If(a.op = "set" =>
+            LET accepted == a.ok /\ <<r.read.w, r.read.d>> = <<a.a, a.n1>>
+                rejected == ~a.ok /\ r.same.mode
+            IN IF a.a \notin ValidModes THEN rejected
+               ELSE IF a.p = "" THEN accepted
+               ELSE accepted \/ rejected, "SetGet")
 
 Step(r, s) == CASE r.a.op = "run" -> RunStep(s, r.a.n1, r.a.n2, r.run)
                 [] r.a.op = "collect" -> CollectStep(s, r.a.a, r.w)
-                [] r.a.op = "set" -> SetStep(s, r.a.a, r.a.n1)
+                [] r.a.op = "set" -> SetStep(s, r.a.a, r.a.p, r.a.n1, r.a.ok)
                 [] OTHER -> s
 (* the observed successor is the specification's, nothing else appeared in   *)
 (* the directory, and the library reads the mode file as documented          *)
